@@ -798,6 +798,29 @@ theorem c10_translation_agrees_inflammation (im : Innate) (hc : im.cuts = genCut
     by_cases h3 : sumLevels ms + errs.length * 2 ≥ 3 ∨ ms.length + errs.length ≥ 2 <;>
     by_cases h4 : ms.length + errs.length ≥ 1 <;> simp only [h1, h2, h3, h4, if_true, if_false]
 
+mutual
+/-- `JSONValidator._measure_depth`, translated with its recursion (early exit once `current` exceeds `max_depth`, empty
+    container = one more level, otherwise the maximum over the children measured one level deeper; dict and list
+    branches translate to the same text), is the model's `measure` — for every tree, every starting level, every
+    `max_depth`. -/
+theorem c10_translation_agrees_measure_depth (md : Nat) : ∀ (t : J) (cur : Nat), Tr.measure md t cur = measure md t cur
+  | .scalar, cur => by simp [Tr.measure, measure]
+  | .node xs, cur => by
+    unfold Tr.measure measure
+    split
+    · rfl
+    · cases xs with
+      | nil => rfl
+      | cons y ys => exact c10_translation_agrees_measure_depth_children md (y :: ys) (cur + 1)
+/-- … and the maximum over the children likewise -/
+theorem c10_translation_agrees_measure_depth_children (md : Nat) : ∀ (xs : List J) (cur : Nat),
+    Tr.measureMax md xs cur = measureMax md xs cur
+  | [], _ => by simp [Tr.measureMax, measureMax]
+  | x :: xs, cur => by
+    simp only [Tr.measureMax, measureMax]
+    rw [c10_translation_agrees_measure_depth md x cur, c10_translation_agrees_measure_depth_children md xs cur]
+end
+
 /-- the three shipped validators' `validate` methods, translated, are the model's `Validator.run` (JSON: including
     which exception classes of `json.loads` the handler catches) -/
 theorem c10_translation_agrees_validators (env : Env) (c : Str) :
@@ -818,6 +841,7 @@ theorem c10_translation_agrees_validators (env : Env) (c : Str) :
     cases allowNull <;> cases allowCtl <;> cases c.contains 0 <;> cases c.any isBadCtl <;> rfl
   · intro md ms
     unfold Tr.jsonValidate Validator.run
+    simp only [c10_translation_agrees_measure_depth]
     by_cases h : c.length > ms
     · simp [h]
     · simp only [h, decide_false, Bool.false_eq_true, if_false]
